@@ -8,8 +8,8 @@ HERE = os.path.dirname(os.path.dirname(os.path.abspath(__file__)))
 
 def main():
     out = []
-    out.append("| seeded change (independent sub-agent) | breaks | needs, to manifest | fired (quick tier) |")
-    out.append("|---|---|---|---|")
+    out.append("| seeded change (independent sub-agent) | written against | needs, to manifest | blind | reported by (quick tier) |")
+    out.append("|---|---|---|---|---|")
     sd = os.path.join(HERE, "seeded")
     for sid in sorted(os.listdir(sd)):
         mp = os.path.join(sd, sid, "meta.json")
@@ -17,11 +17,30 @@ def main():
             continue
         m = json.load(open(mp))
         q = m.get("checks", {}).get("quick", {})
+        own = m["breaks_property"]
         fired = sorted(p for p, r in q.items() if r["exit"] == 1)
-        silent_own = m["breaks_property"] not in fired
-        out.append("| `%s` | %s | %s | %s%s |" % (sid, m["breaks_property"], m.get("needs", "see NOTES.md"), " ".join(fired) or "-",
-                                                 " (own check SILENT)" if silent_own else ""))
+        others = [p for p in fired if p != own]
+        col = ("**%s**" % own if own in fired else "(%s silent)" % own) + ((" " + " ".join(others)) if others else "")
+        blind = str(m.get("first_run_own_check", "?")).split(" ")[0]
+        out.append("| `%s` | %s | %s | %s | %s |" % (sid, own, m.get("needs", "see NOTES.md").replace("|", "/"), blind, col))
     out.append("")
+    out.append("Bold = the check of the property the change was written against (re-run on the final machinery); the other ids are "
+               "checks that reported the change in a cross run (every check against every change), which was last made for each change "
+               "at the end of the round that produced it - later strengthening can only have added to them.")
+    out.append("")
+    bd = os.path.join(HERE, "benign")
+    if os.path.isdir(bd):
+        out.append("| behaviour-preserving / out-of-scope change | code of | all 19 checks |")
+        out.append("|---|---|---|")
+        for sid in sorted(os.listdir(bd)):
+            mp = os.path.join(bd, sid, "meta.json")
+            if not os.path.exists(mp):
+                continue
+            m = json.load(open(mp))
+            q = m.get("checks", {}).get("quick", {})
+            bad = sorted(p for p, r in q.items() if r["exit"] != 0)
+            out.append("| `%s` | %s | %s |" % (sid, m.get("refactors_code_of"), ("silent (%d checks)" % len(q)) if not bad else "NOT silent: " + " ".join(bad)))
+        out.append("")
     lr = os.path.join(HERE, "mutants", "last_run.json")
     if os.path.exists(lr):
         res = json.load(open(lr))
